@@ -1,0 +1,94 @@
+//go:build verif
+
+// Contracts for the acv verifier (/verif). Comment-only file: no executable code.
+
+package hmac
+
+//@ func GenerateHMAC(key []byte, data []byte) (out []byte)
+//@   props C01 C09 C14
+//@   safety
+//@   ensures layout: len(out) == 1 + len(ret(hash.Hash.Sum)[0]) && out[0] == 127
+//@   ensures mac-copied: forall(i, 0, len(ret(hash.Hash.Sum)[0]), out[1+i] == ret(hash.Hash.Sum)[0][i])
+//@   at call hmac.New : assert sameslice(arg[1], key)
+//@   at call hash.Hash.Write : assert sameslice(arg[0], data) && recv == ret(hmac.New)[0]
+//@   at call hash.Hash.Sum : assert recv == ret(hmac.New)[0]
+
+//@ func ExtractHash(data []byte) (h Hash)
+//@   props C01 C03 C09 C14
+//@   safety
+//@   ensures h != nil ==> typeis(h, *HashData) && 1 <= len(unbox(h, *HashData).data) && len(unbox(h, *HashData).data) <= len(data) && sameslice(unbox(h, *HashData).data, data[:len(unbox(h, *HashData).data)])
+
+//@ assume func (h Hash) Length() (n int)
+//@   ensures typeis(h, *HashData) ==> n == len(unbox(h, *HashData).data)
+//@   modifies nothing
+
+//@ assume func (h Hash) IsEqual(data []byte, keyID []byte, store keystore.HmacKeyStore) (ok bool)
+//@   requires typeis(h, *HashData) ==> 1 <= len(unbox(h, *HashData).data)
+//@   modifies nothing
+
+//@ func (d *HashData) Length() (n int)
+//@   props C01 C03 C09 C14
+//@   safety
+//@   ensures n == len(d.data)
+//@   modifies nothing
+
+//@ func (d *HashData) Marshal() (out []byte)
+//@   props C09 C14
+//@   safety
+//@   ensures sameslice(out, d.data)
+//@   modifies nothing
+
+//@ func (d *HashData) IsEqual(data []byte, keyID []byte, store keystore.HmacKeyStore) (ok bool)
+//@   props C02 C03 C09 C14
+//@   safety
+//@   requires 1 <= len(d.data)
+//@   ensures key-error: ret(HmacKeyStore.GetHMACSecretKey)[1] != nil ==> !ok
+//@   ensures compares-mac: ok ==> eqbytes(d.data[1:], ret(hash.Hash.Sum)[0])
+//@   at call HmacKeyStore.GetHMACSecretKey : assert recv == store && sameslice(arg[0], keyID)
+//@   at call hmac.New : assert sameslice(arg[1], ret(HmacKeyStore.GetHMACSecretKey)[0])
+//@   at call hash.Hash.Write : assert sameslice(arg[0], data) && recv == ret(hmac.New)[0]
+//@   at call hash.Hash.Sum : assert recv == ret(hmac.New)[0]
+
+//@ func ExtractHashAndData(container []byte) (h Hash, rest []byte)
+//@   props C01 C03 C09 C14
+//@   safety
+//@   ensures h == nil ==> rest == nil
+
+//@ func NewDefaultHash(rawHashData []byte) (d *HashData)
+//@   props C09 C14
+//@   safety
+//@   ensures len(d.data) == 1 + len(rawHashData) && d.data[0] == 127
+
+//@ func (p *Processor) Process(data []byte, ctx *base.DataProcessorContext) (out []byte, err error)
+//@   props C02 C03 C09 C14
+//@   safety
+//@   ensures sameslice(out, data)
+//@   ensures mismatch: p.hashData != nil && !ret(Hash.IsEqual)[0] ==> err == ErrHMACNotMatch
+//@   at call base.AccessContextFromContext : assert arg[0] == ctx.Context
+//@   at call AccessContext.GetClientID : assert recv == ret(base.AccessContextFromContext)[0]
+//@   at call Hash.IsEqual : assert sameslice(arg[0], data) && sameslice(arg[1], ret(AccessContext.GetClientID)[0]) && arg[2] == p.hmacStore
+
+//@ func (p *Processor) OnColumn(ctx context.Context, data []byte) (outCtx context.Context, out []byte, err error)
+//@   props C03 C09 C14
+//@   safety
+//@   ensures err == nil
+
+//@ func (e *SearchableDataEncryptor) EncryptWithClientID(clientID []byte, data []byte, settingCE config.ColumnEncryptionSetting) (out []byte, err error)
+//@   props C01 C02 C09 C14
+//@   safety
+//@   at call SearchableEncryptorKeystore.GetHMACSecretKey : assert recv == e.keystore && sameslice(arg[0], clientID)
+//@   at call GenerateHMAC : assert sameslice(arg[0], ret(SearchableEncryptorKeystore.GetHMACSecretKey)[0]) && ret(SearchableEncryptorKeystore.GetHMACSecretKey)[1] == nil
+//@   at call DataEncryptor.EncryptWithClientID : assert sameslice(arg[0], clientID) && sameslice(arg[1], data)
+//@   at call base.WithClientID : assert sameslice(arg[0], clientID)
+
+//@ func DecryptRotatedSearchableAcraStruct(acrastruct []byte, hmacKey []byte, privateKeys []*keys.PrivateKey, context []byte) (out []byte, err error)
+//@   props C01 C03 C09 C14
+//@   safety
+//@   at call Hash.IsEqual : assert sameslice(arg[0], ret(acrastruct.DecryptRotatedAcrastruct)[0]) && ret(acrastruct.DecryptRotatedAcrastruct)[1] == nil
+//@   ensures hash-checked: called(Hash.IsEqual) && !ret(Hash.IsEqual)[0] ==> err == ErrHMACNotMatch
+
+//@ func DecryptRotatedSearchableAcraBlock(acraBlock []byte, hmacKey []byte, symKeys [][]byte, context []byte) (out []byte, err error)
+//@   props C01 C03 C09 C14
+//@   safety
+//@   at call Hash.IsEqual : assert sameslice(arg[0], ret(AcraBlock.Decrypt)[0]) && ret(AcraBlock.Decrypt)[1] == nil
+//@   ensures hash-checked: called(Hash.IsEqual) && !ret(Hash.IsEqual)[0] ==> err == ErrHMACNotMatch
